@@ -207,6 +207,19 @@ func Main() {
 		for _, id := range IDs() {
 			fmt.Println(id)
 		}
+	case "case":
+		// case <id> <tier> <flavour> <index>: print the JSON of one generated case
+		d := mustDef(os.Args[2])
+		Flavour = os.Args[4]
+		want, _ := strconv.Atoi(os.Args[5])
+		k := -1
+		d.Gen(os.Args[3], func(c interface{}) {
+			k++
+			if k == want {
+				b, _ := json.Marshal(map[string]interface{}{"property": os.Args[2], "tier": os.Args[3], "flavour": os.Args[4], "sig": "manual", "case": c})
+				fmt.Println(string(b))
+			}
+		})
 	case "worker":
 		worker(os.Args[2:])
 	case "replay":
